@@ -285,6 +285,8 @@ pub struct GroupView {
     pub messages: Vec<MsgView>,
     pub snapshots: Vec<String>,
     pub secrets_epochs: Vec<u64>,
+    /// message ids in the order get_messages (default sort) returned them
+    pub order: Vec<String>,
 }
 
 pub fn h8(b: &[u8]) -> String {
@@ -434,6 +436,7 @@ pub fn group_view<S: MdkStorageProvider>(mdk: &MDK<S>, gid: &GroupId) -> GroupVi
         Err(e) => gv.mls_err = Some(e),
     }
     let mut msgs: Vec<MsgView> = all_messages(mdk, gid).iter().map(msg_view).collect();
+    gv.order = msgs.iter().map(|m| m.id.clone()).collect();
     msgs.sort_by(|a, b| a.id.cmp(&b.id));
     gv.messages = msgs;
     gv.snapshots = storage
